@@ -251,8 +251,12 @@ def _isinstance(ip, a, kw, node):
     items = cls.items if isinstance(cls, PySeq) else [cls]
     outs = []
     for c in items:
+        # objects of a family with its own isinstance reading (program values: the effect discipline; looked-up objects) go through it first
+        h = isinstance(obj, ZV) and R.METHODS.get((base_tag(obj.tag), "__isinstance__"))
+        if h and base_tag(obj.tag) in ("Val", "Callee"):
+            outs.append(as_bool(h(ip, obj, [c], {}, node)))
+            continue
         if not isinstance(c, GlobalRef) or c.path not in ISINSTANCE:
-            h = isinstance(obj, ZV) and R.METHODS.get((base_tag(obj.tag), "__isinstance__"))
             if h:
                 outs.append(as_bool(h(ip, obj, [c], {}, node)))
                 continue
